@@ -638,6 +638,13 @@ def check_C19(chk):
     bins = vlib.build_harness(["dbg-native"])
     stage_conv(chk, bins, "supports", 4, 7 if chk.thorough else 6, family="{63, 64, 65, 511, 512, 513, 4095, 4096, 4097}")
     stage_format_nosupport(chk, bins)
+    # wavelet matrices and cores whose level bitvectors carry every subset of supports (and per-level mixtures): load, ==, answers
+    wpath, wres = vlib.generate_cases(chk.work, "GenWM_subsets", "GenWM", cfg_consts({"Alpha": "{0, 1, 2, 3}", "MaxLen": 4 if chk.thorough else 3, "ExtraVals": "{}"}) + GEN_TAIL, timeout=900)
+    chk.add_tlc(wres, "GenWM vectors for the support-subset files", {"behaviours": len(wres.replay_lines)})
+    st = "wavelet matrix / core files whose levels carry each of the 8 subsets of supports and two per-level mixtures: load consumes the file, == the original, same answers"
+    out = chk.run_harness(bins["dbg-native"], ["replay", "--kind", "wm", "--cases", wpath, "--subsets", "1"], st)
+    if out:
+        chk.add_replay(out, st)
     # supports enabled, reloaded and cloned at every state of the lifecycle machine
     stage_life(chk, bins, "C19", ["enable:", "reload:plain", "reload:sparse", "reload:rl", "file:plain", "file:sparse", "file:rl", "clone:plain", "clone:sparse", "clone:rl"],
                ops='{"mut", "to", "enable", "reload", "file", "clone"}', maxlen=3 if chk.thorough else 2, scales=(1, 64, 65), big_scales=(130, 1100), big_stride=5 if chk.thorough else 13)
